@@ -17,7 +17,7 @@ ASSUMPTIONS = ['the independent load counts every unacknowledged start of the re
                'lower bound of what the statement requires']
 FLOORS = {'quick': {'requests_checked': 1500, 'requests_near_cap': 100, 'requests_with_pending_load': 100},
           'thorough': {'requests_checked': 40000, 'requests_near_cap': 2500, 'requests_with_pending_load': 2500}}
-COUNT = {'quick': 300, 'thorough': 7000}
+COUNT = {'quick': 640, 'thorough': 12000}
 BUDGET_S = {'quick': 55, 'thorough': 540}
 
 KNOBS = {'n_min': 2, 'n_max': 4, 'max_nodes': 2,
